@@ -160,18 +160,64 @@ Definition spec_of (parser : list pstate -> list line -> pres) (fuel pf : nat)
   if shared f then spec_run parser fuel pf LShared (split_lines script)
   else spec_run parser fuel pf (LLines (split_lines script)) (split_lines data).
 
-(* bytes, any value but NUL (the script need not be valid UTF-8) *)
+(* bytes, any value (the script need not be valid UTF-8) *)
 Definition in_domain (x : list N) : bool :=
-  forallb (fun b => N.ltb 0 b && N.ltb b 256) x.
+  forallb (fun b => N.ltb b 256) x.
 
 Definition modelled_tag (t : ftag) : bool :=
   match t with FEnd | FSyntax | FExit => true | _ => false end.
+
+(* ------------------------------------------------------------------ *)
+(* `set -v` (yash-env/src/input/echo.rs): an implementation-only clause.
+   The harness records every line the shell echoes to standard error as a
+   record of kind 4, in order with the other records.  The scripts of this
+   stream switch the option on with `set -v; probe vmark`.  Clause: nothing is
+   echoed before that command; from then on, whenever a record with a position
+   is made (and at the end), the text echoed so far is exactly the script from
+   the end of the `set -v` line up to that position — every line once, in
+   order, before the commands of that line run.  A -c string is not echoed. *)
+Definition vmark : list str := [[118; 109; 97; 114; 107]%N].
+
+Definition slice_ok (script : list N) (s : N) (E : list N) (off : N) : bool :=
+  N.eqb (s + nlen E) off && str_eqb E (firstn (length E) (skipn (N.to_nat s) script)).
+
+Fixpoint echo_walk (script : list N) (s : option N) (E : list N) (evs : list event)
+  : bool * option N * list N :=
+  match evs with
+  | [] => (true, s, E)
+  | Ev k args _ off :: r =>
+      if N.eqb k 4 then echo_walk script s (E ++ concat args) r
+      else if N.eqb k 3 then echo_walk script s E r
+      else
+        match s with
+        | None =>
+            let ok := match E with [] => true | _ => false end in
+            let s' := if list_eqb str_eqb args vmark then Some off else None in
+            let '(b, s2, E2) := echo_walk script s' [] r in (ok && b, s2, E2)
+        | Some s0 =>
+            let '(b, s2, E2) := echo_walk script s E r in (slice_ok script s0 E off && b, s2, E2)
+        end
+  end.
+
+Definition echo_ok (script : list N) (o : obs) : bool :=
+  let '(_, _, off, evs) := o in
+  let '(b, s, E) := echo_walk script None [] evs in
+  b && match s with
+       | None => match E with [] => true | _ => false end
+       | Some s0 => slice_ok script s0 E off
+       end.
+
+Definition no_echo (o : obs) : bool :=
+  let '(_, _, _, evs) := o in forallb (fun e => negb (N.eqb (event_kind e) 4)) evs.
+
+Definition strip_echo (o : obs) : obs :=
+  let '(t, s, off, evs) := o in (t, s, off, filter (fun e => negb (N.eqb (event_kind e) 4)) evs).
 
 (* the first observation made with the script on descriptor 0 *)
 Fixpoint first_shared (runs : list (feed * iout)) : option obs :=
   match runs with
   | [] => None
-  | (f, IObs o) :: r => if shared f then Some o else first_shared r
+  | (f, IObs o) :: r => if shared f then Some (strip_echo o) else first_shared r
   | _ :: r => first_shared r
   end.
 
@@ -187,9 +233,12 @@ Definition run_one (parser : list pstate -> list line -> pres) (fuel pf : nat) (
   let (f, io) := fo in
   match io with
   | IPanic | IHang => 8%N
-  | IObs o =>
+  | IObs o0 =>
+      let o := strip_echo o0 in
       (* ORACLE, on the implementation's observation only *)
-      if shared f && negb (match ref with Some o0 => obs_eqb o0 o | None => true end) then 2%N
+      if (if shared f then negb (echo_ok script o0)
+          else match f with FdString => negb (no_echo o0) | _ => false end) then 5%N
+      else if shared f && negb (match ref with Some o0 => obs_eqb o0 o | None => true end) then 2%N
       else if aligned && negb (line_aligned (if shared f then script else data) o) then 3%N
       else
         let sp := spec_of parser fuel pf script data f in
